@@ -21,6 +21,7 @@
 struct hdr { uint64_t magic; long tid; size_t size; uint64_t pad; };
 #define MAGIC 0xC0FFEE0DDF00Dull
 static _Thread_local long my_tid;
+static _Thread_local int in_handoff; /* working on an item another thread handed over: its blocks legitimately carry that thread's id */
 static atomic_long g_allocs, g_frees, g_cross, g_foreign;
 static void* t_malloc(size_t n) {
   struct hdr* h = malloc(sizeof *h + n);
@@ -33,7 +34,7 @@ static void t_free(void* p) {
   if (!p) return;
   struct hdr* h = (struct hdr*)p - 1;
   if (h->magic != MAGIC) { atomic_fetch_add(&g_foreign, 1); return; }
-  if (h->tid != my_tid) atomic_fetch_add(&g_cross, 1);
+  if (h->tid != my_tid && !in_handoff) atomic_fetch_add(&g_cross, 1);
   h->magic = 0;
   atomic_fetch_add(&g_frees, 1);
   free(h);
@@ -42,7 +43,7 @@ static void* t_realloc(void* p, size_t n) {
   if (!p) return t_malloc(n);
   struct hdr* h = (struct hdr*)p - 1;
   if (h->magic != MAGIC) { atomic_fetch_add(&g_foreign, 1); return NULL; }
-  if (h->tid != my_tid) atomic_fetch_add(&g_cross, 1);
+  if (h->tid != my_tid && !in_handoff) atomic_fetch_add(&g_cross, 1);
   void* q = t_malloc(n);
   if (!q) return NULL;
   memcpy(q, p, h->size < n ? h->size : n);
@@ -94,6 +95,56 @@ static uint64_t read_shared(void) {
   return fnv(h, &k, sizeof k);
 }
 
+/* ---- ownership transfer between threads (not sharing): a thread copies one of its items and hands the COPY to a neighbour through
+ * an atomic mailbox (release / acquire); it keeps using the original while the neighbour uses, copies and releases the copy. Payloads
+ * and chunks of several KiB, so that any size-keyed shortcut in cbor_copy is on the path. ---- */
+#define MAXT 64
+static _Atomic(cbor_item_t*) mbox[MAXT];
+static int n_threads;
+static cbor_item_t* big_item(struct rng* r) {
+  static const size_t sizes[] = {100, 4095, 4096, 4097, 5000, 9000};
+  unsigned char* pay = malloc(9000);
+  for (size_t i = 0; i < 9000; i++) pay[i] = (unsigned char)('a' + (i + rnd(r)) % 26);
+  cbor_item_t* root = cbor_new_indefinite_array();
+  cbor_item_t* bs = cbor_new_indefinite_bytestring();
+  cbor_item_t* ts = cbor_new_indefinite_string();
+  for (int c = 0; c < 3; c++) {
+    cbor_item_t* x = cbor_build_bytestring(pay, sizes[rnd(r) % 6]);
+    (void)cbor_bytestring_add_chunk(bs, x); cbor_decref(&x);
+    x = cbor_build_stringn((const char*)pay, sizes[rnd(r) % 6]);
+    (void)cbor_string_add_chunk(ts, x); cbor_decref(&x);
+  }
+  cbor_item_t* d = cbor_build_bytestring(pay, sizes[rnd(r) % 6]);
+  cbor_item_t* tg = cbor_build_tag(7, d);
+  (void)cbor_array_push(root, bs); (void)cbor_array_push(root, ts); (void)cbor_array_push(root, tg);
+  cbor_decref(&bs); cbor_decref(&ts); cbor_decref(&d); cbor_decref(&tg);
+  free(pay);
+  return root;
+}
+static void use_and_release(cbor_item_t* it) {
+  static _Thread_local unsigned char big[1 << 16];
+  volatile size_t sink = cbor_serialize(it, big, sizeof big);
+  sink += cbor_serialized_size(it);
+  cbor_item_t* cp = cbor_copy(it);
+  if (cp) { sink += cbor_serialize(cp, big, sizeof big); cbor_decref(&cp); }
+  (void)sink;
+  cbor_decref(&it);
+}
+static void handoff_step(struct rng* r) {
+  if (n_threads < 2 || my_tid < 1) return;
+  /* receive */
+  cbor_item_t* got = atomic_exchange_explicit(&mbox[my_tid - 1], NULL, memory_order_acq_rel);
+  if (got) { in_handoff = 1; use_and_release(got); in_handoff = 0; }
+  /* send a copy, keep the original */
+  cbor_item_t* orig = big_item(r);
+  cbor_item_t* cp = cbor_copy(orig);
+  if (cp) {
+    cbor_item_t* old = atomic_exchange_explicit(&mbox[my_tid % n_threads], cp, memory_order_acq_rel);
+    if (old) { in_handoff = 1; use_and_release(old); in_handoff = 0; } /* nobody picked it up: ours again */
+  }
+  use_and_release(orig);
+}
+
 static uint64_t workload(uint64_t seed, long ops, int with_shared) {
   struct rng r = {seed};
   uint64_t h = 1469598103934665603ull;
@@ -129,6 +180,7 @@ static uint64_t workload(uint64_t seed, long ops, int with_shared) {
     size_t el = cbor_encode_uint(rnd(&r), out, 16);
     h = fnv(h, out, el);
     if (with_shared && shared_tree) { uint64_t s = read_shared(); h = fnv(h, &s, sizeof s); }
+    if (with_shared && i % 8 == 3) { struct rng r2 = {seed ^ (uint64_t)i}; handoff_step(&r2); } /* (own generator: the digest stays comparable with the solo run) */
   }
   return h;
 }
@@ -222,8 +274,10 @@ int main(int argc, char** argv) {
   my_tid = 0;
   long allocs0 = atomic_load(&g_allocs), frees0 = atomic_load(&g_frees);
   pthread_t th[64];
+  n_threads = T;
   for (int t = 0; t < T; t++) { a[t] = (struct targ){.tid = t + 1, .seed = base + t, .ops = ops}; pthread_create(&th[t], NULL, thread_main, &a[t]); }
   for (int t = 0; t < T; t++) pthread_join(th[t], NULL);
+  for (int t = 0; t < T; t++) { cbor_item_t* left = atomic_exchange(&mbox[t], NULL); if (left) { in_handoff = 1; cbor_decref(&left); in_handoff = 0; } }
   for (int t = 0; t < T; t++)
     printf("{\"e\":\"thread\",\"tid\":%d,\"threads\":%d,\"ops\":%ld,\"same\":%s,\"digest\":%llu}\n", t + 1, T, ops, a[t].digest == solo[t] ? "true" : "false",
            (unsigned long long)(a[t].digest & 0xffffff));
